@@ -434,7 +434,39 @@ class C04(Check):
             res[i] = 'oracle iteration did not converge'
         return list(zip(res, orcs))
 
-    def check_sheets(self, ctx, texts, kind, nontrivial=None):
+    def check_cuts(self, ctx, texts, toklists, models, reals, kind):
+        """the truncation theorems on real truncated sheets: the driver builds a certificate for the token list
+        (complete statements, the open @media rules with their complete units to any depth, the open style rule
+        with its complete declarations), checks every hypothesis (`Cut.ok`, proved sound) and answers with the
+        rule list theorem `truncation_certified` predicts; it must be the model's own answer (an instance of the
+        theorem) and, projected, the DOM of parseString"""
+        idx = [i for i, (tree, _) in enumerate(models) if isinstance(tree, dict)]
+        if not idx or not ctx.model_ok:
+            return
+        out = ctx.driver(['cut %s %s' % (enc_toks(toklists[i]), models[i][1].entries()) for i in idx])
+        for i, line in zip(idx, out):
+            tree, orc = models[i]
+            if not line.startswith('{'):
+                ctx.disagree('cut/' + kind, {'text': texts[i]}, 'a certificate or ok=false', line)
+                continue
+            pred = json.loads(line)
+            shape = pred.get('shape', '?')
+            ctx.case(key=('cut', texts[i]), nontrivial=bool(pred['ok']) and shape != 'end',
+                     kind='cut:%s%s' % ('' if pred['ok'] else 'uncovered:', shape),
+                     sample={'text': texts[i][-120:], 'shape': shape})
+            if not pred['ok']:
+                continue
+            if pred['rules'] != tree['rules']:
+                ctx.disagree('cut/theorem-instance/' + kind, {'text': texts[i]}, tree['rules'], pred['rules'])
+                continue
+            try:
+                mp = strip_proj(proj_rules_model(pred['rules'], toklists[i], orc))
+            except KeyError as e:
+                mp = 'prediction asks a query the model did not show: %s' % e
+            if mp != strip_proj(reals[i]):
+                ctx.disagree('cut/prediction/' + kind, {'text': texts[i], 'shape': shape}, strip_proj(reals[i]), mp)
+
+    def check_sheets(self, ctx, texts, kind, nontrivial=None, cuts=False):
         """correspondence parseString vs model on texts; returns the real projections"""
         toklists = [tokenize(t) for t in texts]
         models = self.model_sheets(ctx, toklists)
@@ -453,6 +485,8 @@ class C04(Check):
             mp = proj_rules_model(tree['rules'], toks, orc)
             if strip_proj(mp) != strip_proj(real):
                 ctx.disagree('parseString/' + kind, {'text': text}, strip_proj(real), strip_proj(mp))
+        if cuts:
+            self.check_cuts(ctx, texts, toklists, models, reals, kind)
         return reals
 
     # -- correspondence: _tokensupto2 directly ---------------------------------------------------------
@@ -542,14 +576,15 @@ class C04(Check):
     # -- truncation ---------------------------------------------------------------------------------------
     def corr_and_oracle_truncation(self, ctx, rng, sheets):
         n_sheets = ctx.n(25, 300)
-        for sh in sheets[:n_sheets]:
+        deep = [G.gen_deep_sheet(rng) for _ in range(ctx.n(2, 40))]
+        for sh in sheets[:n_sheets] + deep:
             text, _ = sh.render()
             toks = tokenize(text)
             # cut at every token boundary (and a few inside tokens)
             offs = sorted(set(G.token_offsets(text, toks)) | {rng.randint(0, len(text)) for _ in range(4)})
             texts = [text[:o] for o in offs]
             nontriv = [o < len(text) for o in offs]
-            reals = self.check_sheets(ctx, texts, 'truncate', nontriv)
+            reals = self.check_sheets(ctx, texts, 'truncate', nontriv, cuts=True)
             full = parse_real(text)
             for o, t, real in zip(offs, texts, reals):
                 w = {'original': text, 'cut': o, 'truncated': t}
@@ -703,7 +738,7 @@ class C04(Check):
             reals = self.check_sheets(ctx, [w['original'], w['damaged']], 'replay')
             self.judge_injection(ctx, w['original'], w['offset'], w['where'], g, reals[0], reals[1])
         elif 'truncated' in w:
-            reals = self.check_sheets(ctx, [w['original'], w['truncated']], 'replay')
+            reals = self.check_sheets(ctx, [w['original'], w['truncated']], 'replay', cuts=True)
             full, real = reals
             if isinstance(real, tuple):
                 ctx.violate('parsing the truncated sheet raised', w, real)
@@ -718,7 +753,7 @@ class C04(Check):
                 if isinstance(inp, dict) and 'text' in inp:
                     texts.append(inp['text'])
             if texts:
-                self.check_sheets(ctx, texts, 'replay')
+                self.check_sheets(ctx, texts, 'replay', cuts=True)
             else:
                 self.run(ctx)
 
